@@ -27,7 +27,7 @@ def shards(tier, seed):
 
 def requirements(tier):
     return {"judged:IMTLG": 800, "judged:ConFIG": 800, "judged:AlignedMTL": 800, "zero_matrix_checked": 100, "w_pref_vector:ConFIG": 200,
-            "w_pref_vector:AlignedMTL": 200, "w_scale_far_from_1": 500, "w_float32": 500, "w_row_norms_differ": 1000}
+            "w_pref_vector:AlignedMTL": 200, "w_scale_far_from_1": 500, "w_float32": 500, "w_row_norms_differ": 1000, "w_very_wide": 40}
 
 
 def gen_case(rng, i):
@@ -35,6 +35,8 @@ def gen_case(rng, i):
     dname = "float32" if rng.random() < 0.25 else "float64"
     m = int(rng.integers(1, 7))
     n = int(rng.integers(m, m + 6))
+    if rng.random() < 0.04:
+        n = [5000, 50000][int(rng.integers(2))]  # as many columns as a real model has parameters
     cmax = 50.0 if name == "AlignedMTL" else (1e2 if dname == "float32" else 1e4)
     cond = float(10 ** rng.uniform(0, np.log10(cmax)))
     # "all scales": 60 decades in float64, 24 in float32 (Gramians stay representable)
@@ -148,7 +150,9 @@ def check_case(case, ctx):
     if differ:
         ctx.count("w_row_norms_differ")
     ctx.evaluated(fingerprint(case), nontrivial=differ)
-    ctx.sample({"J": np.round(J, 4).tolist(), "agg": a, "dtype": dname, "cond": float(sv[0] / sv[-1])})
+    if n >= 1000:
+        ctx.count("w_very_wide")
+    ctx.sample({"J": np.round(J[:, :8], 4).tolist(), "columns": n, "agg": a, "dtype": dname, "cond": float(sv[0] / sv[-1])})
 
 
 def run_zeros(ctx):
